@@ -10,13 +10,14 @@ decrements once per use and evicts at zero, and never skips a primary's secondar
 Executor behaviour and actual completion orders are not decided.
 """
 import ast
+import itertools
 from ..core import AnalysisError, norm, dotted, calls_in, walk_no_nested, parent, enclosing_stmt
 from ..flow import Flow, lexically_inside
 from ..order import Interp, Model
 from ..cfg import EXIT, RAISE, ENTRY
 
 FILESET = "typhon/files/fileset.py"
-EXPECT = {"C10.fifo": 3, "C10.bound": 2, "C10.flush": 1, "C10.ordered": 2, "C10.args": 3, "C10.errwrap": 2, "C10.collect": 3, "C10.align": 5}
+EXPECT = {"C10.fifo": 3, "C10.bound": 2, "C10.flush": 1, "C10.ordered": 2, "C10.args": 3, "C10.errwrap": 2, "C10.collect": 3, "C10.align": 8}
 
 
 def _queue_name(f):
@@ -327,6 +328,55 @@ def rule_align(ctx):
         ok4 = not before and len(ev) == 1 and not other_del
     ctx.ob("FileSet.align.usage", ok4, "decrements per iteration: %d" % len(dec),
            "secondary_usage[f] -= 1 exactly once per use, on every iteration, followed by `if not secondary_usage[f]: del cache[f]` (only eviction)", node=dec[0] if dec else ip, func=f)
+    # 6. what is iterated and yielded; the skip guard never drops a pair that was read successfully
+    en = calls_in(op.iter, "enumerate")
+    idx = norm(op.target.elts[0]) if isinstance(op.target, ast.Tuple) and en else None
+    pdat = norm(op.target.elts[1]) if isinstance(op.target, ast.Tuple) and en else None
+    okit = idx is not None and norm(ip.iter).replace(" ", "") in ("matches[%s][1]" % idx, "secondaries[%s]" % idx)
+    ctx.ob("FileSet.align.secondaries_of", okit, "inner loop over %s" % norm(ip.iter), "the secondaries matched to primary i: matches[i][1]", node=ip, func=f)
+    ys = [n for n in walk_no_nested(ip) if isinstance(n, ast.Yield)]
+    if len(ys) != 1 or not isinstance(ys[0].value, ast.Tuple) or len(ys[0].value.elts) != 2:
+        raise AnalysisError("align: expected one `yield primary, secondary` in the secondary loop")
+    y = ys[0]
+    sdat = None
+    for st_ in walk_no_nested(ip):
+        if isinstance(st_, ast.Assign) and norm(st_.value) == "cache[%s]" % sv and isinstance(st_.targets[0], ast.Name):
+            sdat = st_.targets[0].id
+    if sdat is None or pdat is None:
+        raise AnalysisError("align: names of the primary / secondary contents not found")
+    zp = [st_ for st_ in flow.stmts if isinstance(st_, ast.Assign) and isinstance(st_.targets[0], ast.Tuple) and norm(st_.value).replace(" ", "") == "zip(*matches)"]
+    prim = norm(zp[0].targets[0].elts[0]) if zp and len(zp[0].targets[0].elts) == 2 else "primaries"
+    vals = {}
+    for v_ in (True, False):
+        vals[v_] = [norm(flow.resolve_under(e_, {"return_info": v_}, at=y, depth=2, stop=(pdat, sdat, sv, idx, prim))).replace(" ", "") for e_ in y.value.elts]
+    oky = vals[False] == [pdat, sdat] and vals[True][0] in ("[%s[%s],%s]" % (prim, idx, pdat), "[matches[%s][0],%s]" % (idx, pdat)) and vals[True][1] == "[%s,%s]" % (sv, sdat)
+    ctx.ob("FileSet.align.yield", oky, "plain: %s; with return_info: %s" % (vals[False], vals[True]),
+           "(primary content, secondary content), each paired with its own FileInfo under return_info", node=y, func=f)
+    from ..flow import guard_chain
+    yst = enclosing_stmt(y)
+    skips = [st_ for st_ in ip.body if isinstance(st_, ast.If) and any(isinstance(n_, ast.Continue) for n_ in st_.body) and st_.lineno < yst.lineno
+             and any(isinstance(n_, ast.Name) and n_.id in (pdat, sdat) for n_ in ast.walk(st_.test))]
+    bad = None
+    for st_ in skips:
+        for pv, sv_, sk in itertools.product((None, 1), (None, 1), (True, False)):
+            try:
+                got = bool(Interp({pdat: pv, sdat: sv_, "skip_errors": sk}).ev(st_.test))
+            except AnalysisError as e_:
+                raise AnalysisError("align: skip guard outside the model: %s" % e_)
+            must_keep = pv is not None and sv_ is not None
+            must_skip = sk and (pv is None or sv_ is None)
+            if (must_keep and got) or (must_skip and not got):
+                bad = {"primary content": pv, "secondary content": sv_, "skip_errors": sk, "skipped": got}
+    for t_, pol in guard_chain(yst, stop=ip):
+        for pv, sv_, sk in itertools.product((1,), (1,), (True, False)):
+            try:
+                if bool(Interp({pdat: pv, sdat: sv_, "skip_errors": sk, "return_info": True}).ev(t_)) != pol and \
+                        bool(Interp({pdat: pv, sdat: sv_, "skip_errors": sk, "return_info": False}).ev(t_)) != pol:
+                    bad = {"yield guarded by": norm(t_), "unreachable for readable files": True}
+            except AnalysisError:
+                pass
+    ctx.ob("FileSet.align.skip", bad is None and len(skips) <= 1, "skip guards: %s" % [norm(s_.test) for s_ in skips],
+           "a pair is skipped only if one of its contents is None (and always then under skip_errors); readable pairs are always yielded", node=skips[0] if skips else yst, func=f, witness=bad)
     # 5. usage counter counts every use; loader iterates the unique secondaries in order of first use
     A = {}
     for st in flow.stmts:
